@@ -197,11 +197,25 @@ def rule_L2(ctx):
         det = ""
         if ok:
             from .util import call_parts
-            ev = evaluator(ctx, mx, cs[0][1])
+            # sizes are folded to numbers (`MdxHeaderConstruct.sizeof()` written in place or through a module constant)
+            from ..core.layout import Env as _Env
+            from ..core.terms import Evaluator as _Ev
+
+            def _fold(n_, _m=mx._module):
+                if isinstance(n_, ast.Call) and isinstance(n_.func, ast.Attribute) and n_.func.attr == "sizeof" and not n_.args and not n_.keywords:
+                    v_ = L.const(n_, _Env(_m))
+                    if isinstance(v_, int) and not isinstance(v_, bool):
+                        return v_
+                raise ValueError("not a static size")
+
+            ev = _Ev(env=cs[0][1], const_of=L.const_of(mx._module), fold=_fold)
             fname, a, kw = call_parts(ev.ev(cs[0][0]).key())
-            szt = Term.atom("MdxHeaderConstruct.sizeof()")
+            hsz = size("smpl_extract/alcohol/mdx.py", "MdxHeaderConstruct")
             hdrt = Term.atom("MdxHeaderConstruct.parse_stream(parent_stream).eof")
-            ok = len(a) >= 3 and a[0] == "parent_stream" and a[2] == szt.key() and a[1] == (hdrt - szt).key()
+            from ..core.terms import parse_key as _pk
+            sub_ = {"MdxHeaderConstruct.sizeof()": Term.const(hsz)}
+            a = [(_pk(x).subst(sub_).key() if _pk(x) is not None else x) for x in a]
+            ok = len(a) >= 3 and a[0] == "parent_stream" and a[2] == str(hsz) and a[1] == (hdrt - Term.const(hsz)).key()
             det = "" if ok else f"StreamOffset({', '.join(a)})"
         ctx.ob("L2", mx, "MDX window: offset = sizeof(MdxHeaderConstruct), size = header.eof - offset", ok, det, inst="MdxStream")
 
